@@ -87,6 +87,21 @@ CLAIMS = {
              'math.sqrt are runtime (partial): compared within a relative tolerance; string statistics oracle-only',
         technique='Lean 4 proof over Q (Mathlib tactics) + correspondence through exact fractions',
         ref='DESIGN.md §5 C16'),
+    'C20': dict(
+        text='Lean 4 theorems: (codec) b64_roundtrip — decode(encode(bytes)) = bytes for EVERY byte string, chunk '
+             'boundaries 57/76 crossed by proof — and codec_roundtrip under the zlib/json round-trip laws, '
+             'gen_tree_constants (chunk sizes and translation tables extracted from TreeTag.py); (state) expand_adds, '
+             'collapse_forgets_descendants, wf_applyDiff, rows_spec (rendered rows = depth-first spec, one link per '
+             'parent encoding its own path, collapse iff expanded), history_invariant (refinement of the nested-list '
+             'state to the set-of-paths spec for every valid click history), init_state; correspondence against the '
+             'real dtml-tree driven through its own links (exhaustive small trees/histories + random large ones) and '
+             'against encode_str/decode_seq; oracle: set-of-paths reference + independent cookie decoder',
+        note='Trusted: Lean kernel; zlib/json/binascii external (hypotheses of codec_roundtrip; binascii modelled by '
+             'b2a/a2b and validated by correspondence); TreeState model validated by correspondence (rows, links, '
+             'cookie paths after every click)',
+        technique='Lean 4 proof (arithmetic + induction for the codec; refinement to a set-of-paths spec for the state) '
+                  '+ correspondence',
+        ref='DESIGN.md §5 C20'),
 }
 
 NA_REASON = 'check not built yet in this round (planned, see DESIGN.md §5)'
